@@ -18,10 +18,18 @@ for sid in ids:
             res = dict(applies_to_head=False, note=ap.stderr.strip()[:200])
         else:
             env = dict(os.environ, VERIF_REPO=wt, VERIF_OUT=os.path.join(wt, '.vout'))
-            p = subprocess.run(['./check', prop, 'quick'], cwd=HERE, env=env, capture_output=True, text=True)
+            # the check of the property the change was written against first; if that one is silent, the others
+            allp = ['C%02d' % i for i in range(1, 21)]
+            for chk in [prop] + ([] if os.environ.get('MATRIX_OWN_ONLY') else [c for c in allp if c != prop]):
+                p = subprocess.run(['./check', chk, 'quick'], cwd=HERE, env=env, capture_output=True, text=True)
+                if p.returncode == 1:
+                    break
+            else:
+                chk = prop
+                p = subprocess.run(['./check', prop, 'quick'], cwd=HERE, env=env, capture_output=True, text=True)
             out = p.stdout
             keys = sorted(set(re.findall(r'witness\[([^\]]+)\]', out)))
-            res = dict(applies_to_head=True, check=prop, tier='quick', exit=p.returncode,
+            res = dict(applies_to_head=True, check=chk, tier='quick', exit=p.returncode,
                        violations=len(re.findall(r'^VIOLATION', out, re.M)), keys=keys,
                        head=subprocess.run(['git', '-C', '/repo', 'rev-parse', '--short', 'HEAD'], capture_output=True, text=True).stdout.strip())
     finally:
